@@ -266,8 +266,8 @@ def units(tier, seed):
         cfgs = [(5, 1, ()), (4, 2, (2,))]
         powD = 4
     else:
-        cfgs = [(8, 1, ()), (6, 2, (2,)), (5, 3, (2, 2)), (7, 2, ())]
-        powD = 6
+        cfgs = [(10, 1, ()), (8, 2, (2,)), (6, 3, (2, 2)), (9, 2, ())]
+        powD = 8
     fnames = list(UNARY) + list(SPECIAL)
     for fname in fnames:
         for (D, P, shape) in cfgs:
@@ -296,7 +296,7 @@ def units(tier, seed):
     for r in (['1/2', '5/2', '-3/2'] if tier == 'quick' else ['1/2', '5/2', '-3/2', '1/3', '7/4', '-1/2']):
         add('pow_float(%s)/D%d,P2' % (r, powD), 'h_unary', fname='powf', D=powD, P=2, shape=(), params={'r': r})
     # complex coefficients (where NumPy/SciPy support them and the oracle is rational in the atoms)
-    cD, cP = (3, 1) if tier == 'quick' else (4, 2)
+    cD, cP = (3, 1) if tier == 'quick' else (6, 2)
     for fname in ['exp', 'expm1', 'log', 'log1p', 'sqrt', 'sin', 'cos', 'sinh', 'cosh', 'reciprocal', 'square']:
         add('%s/complex/D%d,P%d' % (fname, cD, cP), 'h_unary', fname=fname, D=cD, P=cP, shape=(2,) if tier != 'quick' else (), cplx=True)
     for n in (-2, 2, 3, 4):
